@@ -65,8 +65,8 @@ def meta(tier):
         'rule': (f'(a) every statement list of length 1..{k} over the 13-statement alphabet {ALPHA_NAMES} combined with 4 function '
                  f'configurations (3 bodies with their own labels, or no definition) = {total} models, each executed under budget 40 '
                  'on a frozen (mutation-sanitizing) model and again on a plain copy, against RefVM; (b) seeded random models up to '
-                 '40 statements with 4 labels, duplicate labels, dangling jumps, parameterised functions, plus parsed structured '
-                 'programs run against the jump-level reading. Non-trivial: the model has a jump and a label, or a function call; '
+                 '40 statements with 4 labels, duplicate labels, dangling jumps, parameterised functions (re-defined under the same names), plus parsed '
+                 'structured programs run against the jump-level reading; every random model is also run with ONE options dict shared by all models of the shard. Non-trivial: the model has a jump and a label, or a function call; '
                  'distinct = distinct model.'),
         'exhaustive': True,
         'extra': {'exhaustive_part': f'{total} models (length <= {k})'},
